@@ -7,7 +7,9 @@ from typing import Any, Callable, Dict, List, Optional, Union
 
 from mpire.comms import EXIT_FUNC, MAIN_PROCESS
 
-job_counter = itertools.count()
+# Job IDs start at 1. The value 0 is what the 'worker is working on job' array is initialized with, i.e., it stands for
+# 'no job yet' and shouldn't be the ID of an actual job
+job_counter = itertools.count(start=1)
 
 
 class JobType(Enum):
